@@ -90,7 +90,8 @@ fn set_class(txs: &[Transaction], labels: &[String]) -> String {
     let hostile = labels.iter().any(|l| l.contains("hostile"));
     let mut seen = HashSet::new();
     let dup = txs.iter().any(|t| !seen.insert(t.hash_nosigs()));
-    format!("{}{}{}", if dep { "dependent" } else { "independent" }, if hostile { ",one-invalid-member" } else { "" }, if dup { ",duplicate-member" } else { "" })
+    let stake_spender = labels.iter().any(|l| l.starts_with("spender-of-stake-output"));
+    format!("{}{}{}{}", if dep { "dependent" } else { "independent" }, if hostile { ",one-invalid-member" } else { "" }, if dup { ",duplicate-member" } else { "" }, if stake_spender { ",spender-of-a-member-stake's-output" } else { "" })
 }
 
 /// A deterministic scenario whose headers are folded into one digest (for cross-process comparison).
@@ -151,6 +152,9 @@ pub fn run(p: &Params) -> Report {
             // sets with several valid ERG mints (their demonstrated speeds are reduced to a maximum)
             w.profile.doscmint = 40;
         }
+        if case % 4 == 2 {
+            w.profile.stake = 30;
+        }
         w.profile.max_batch = if case % 4 == 0 { if p.thorough { 40 } else { 16 } } else { 5 };
         let mut r = Rng::new(case_seed ^ 3);
         let blocks = 2 + r.usize(4);
@@ -171,6 +175,33 @@ pub fn run(p: &Params) -> Report {
                 let d = txs[r.usize(txs.len())].clone();
                 txs.push(d);
                 labels.push("duplicate".into());
+            }
+            // a member spending an output of a stake transaction of the same set (usually a change output, index >= 1,
+            // sometimes the staked coin itself): whatever the lock rule makes of it, it must make the same of it for
+            // the batch and for one-at-a-time application
+            if r.chance(1, 2) {
+                if let Some(si) = (0..txs.len()).find(|i| txs[*i].kind == melstructs::TxKind::Stake && !labels[*i].contains("hostile")) {
+                    let stx = txs[si].clone();
+                    let k = if stx.outputs.len() > 1 && r.chance(3, 4) { 1 + r.usize(stx.outputs.len() - 1) } else { 0 };
+                    let coin = (stx.output_coinid(k as u8), melstructs::CoinDataHeight { coin_data: stx.outputs[k].clone(), height: melstructs::BlockHeight(w.height()) });
+                    let used: HashSet<melstructs::CoinID> = txs.iter().flat_map(|t| t.inputs.iter().copied()).collect();
+                    let mut ins = vec![];
+                    if coin.1.coin_data.denom != melstructs::Denom::Mel || coin.1.coin_data.value.0 == 0 {
+                        if let Some(mel) = w.spendable().into_iter().find(|(i, c)| c.coin_data.denom == melstructs::Denom::Mel && !used.contains(i) && c.coin_data.value.0 <= MAX_COINVAL && c.coin_data.value.0 > 0) {
+                            ins.push(mel);
+                        }
+                    }
+                    let have_mel = !ins.is_empty() || coin.1.coin_data.denom == melstructs::Denom::Mel;
+                    ins.push(coin);
+                    if have_mel && w.unlock.contains_key(&stx.outputs[k].covhash) {
+                        w.learn_tx(&stx);
+                        if let Some(sp) = w.complete(melstructs::TxKind::Normal, ins, vec![], vec![], 0) {
+                            txs.push(sp);
+                            labels.push(format!("spender-of-stake-output-{}", if k == 0 { "0" } else { "1+" }));
+                            rep.count(&format!("sets with a spender of output {} of a member stake transaction", if k == 0 { "0" } else { ">= 1" }));
+                        }
+                    }
+                }
             }
             let action = w.gen_action();
             let s = w.cur.clone();
@@ -403,6 +434,7 @@ pub fn run(p: &Params) -> Report {
         rep.require("(permutation, pool) executions", p.n(5000, 150000));
         rep.require("sets accepted", p.n(100, 3000));
         rep.require("apply_block replays with rebuilt HashSet", p.n(500, 15000));
+        rep.require("sets with a spender of output >= 1 of a member stake transaction", p.n(3, 100));
     }
     rep
 }
